@@ -22,35 +22,40 @@ type gEntry struct {
 }
 
 type gNode struct {
+	bad                bool // this block, or one below it on its branch, is invalid
 	id, parent, height int
 	blk                aBlock
 	utxo               map[aOp]gEntry
 }
 
 type chainGen struct {
-	r          *core.Rand
-	c          cfg
-	b          *builder
-	nodes      map[int]*gNode
-	tip        int
-	nextB      int
-	nextT      int
-	ids        map[chainhash.Hash]int
-	cbs        []aTx // every coinbase made so far
-	ops        []string
-	reorgs     int
-	dups       int
-	rejs       int
-	chains     int // spends of outputs created in the same block
-	unsp       int
-	long       bool
-	seen       map[string]bool
-	delivered  []int
-	byIns      map[string]aTx
-	modelAlive bool
-	nviews     int
-	restarts   int
-	dupTxs     int
+	r           *core.Rand
+	c           cfg
+	b           *builder
+	nodes       map[int]*gNode
+	tip         int
+	nextB       int
+	nextT       int
+	ids         map[chainhash.Hash]int
+	cbs         []aTx // every coinbase made so far
+	ops         []string
+	reorgs      int
+	dups        int
+	rejs        int
+	chains      int // spends of outputs created in the same block
+	unsp        int
+	long        bool
+	seen        map[string]bool
+	delivered   []int
+	byIns       map[string]aTx
+	modelAlive  bool
+	branchSpent []aOp // outputs spent on the branch being built since it left the active chain
+	crashes     int
+	crashy      bool
+	badBranches int
+	nviews      int
+	restarts    int
+	dupTxs      int
 }
 
 var spendableScripts = [][]byte{{0x51}, {0x51}, {0x51}, {0x52}, {0x53}, {0x01, 0x51}, {0x02, 0xab, 0xcd}, {0x60}}
@@ -242,7 +247,7 @@ func (g *chainGen) makeBlock(p *gNode, kind int) (aBlock, bool) {
 		ntx = 1
 	}
 	badAt := -1
-	if kind == 1 || kind == 3 {
+	if kind == 1 || kind == 3 || kind == 4 || kind == 5 {
 		badAt = r.Intn(ntx)
 	}
 	for k := 0; k < ntx; k++ {
@@ -284,6 +289,15 @@ func (g *chainGen) makeBlock(p *gNode, kind int) (aBlock, bool) {
 					return blk, false
 				}
 				t.ins = append(t.ins, immature[0].o)
+			case 4:
+				// an output an earlier block of the same branch already spent (it is still unspent
+				// on the active chain): only a validation that follows the branch sees it
+				if len(g.branchSpent) == 0 {
+					return blk, false
+				}
+				t.ins = append(t.ins, g.branchSpent[r.Intn(len(g.branchSpent))])
+			case 5:
+				t.ins = append(t.ins, aOp{g.nextT + 1000, 0}) // never created
 			}
 		}
 		if len(t.ins) == 0 {
@@ -361,7 +375,7 @@ func (g *chainGen) makeBlock(p *gNode, kind int) (aBlock, bool) {
 			}
 		}
 	}
-	if kind == 1 || kind == 3 {
+	if kind == 1 || kind == 3 || kind == 4 || kind == 5 {
 		if len(blk.txs) <= badAt+1 {
 			return blk, false
 		}
@@ -399,12 +413,89 @@ func (g *chainGen) deliver(blk aBlock, valid bool) {
 	}
 }
 
+func (g *chainGen) ancestorAt(n *gNode, h int) *gNode {
+	for n.height > h {
+		n = g.nodes[n.parent]
+	}
+	return n
+}
+
+func (g *chainGen) forkOf(a, b *gNode) *gNode {
+	for a.id != b.id {
+		if a.height >= b.height {
+			a = g.nodes[a.parent]
+		} else {
+			b = g.nodes[b.parent]
+		}
+	}
+	return a
+}
+
+// deliverX delivers a block that is valid (bad=false) or invalid only in its branch context
+// (bad=true: accepted as a side-chain block, found out when the branch tries to take over), and,
+// with k > 0, lets the process die after the k-th committed (dis)connection of the call,
+// followed by a start-up with cache `size`.
+func (g *chainGen) deliverX(blk aBlock, bad bool, k int, size uint64) {
+	tok := blk.String()
+	if k > 0 {
+		tok = fmt.Sprintf("K%d:%d:%s", k, size, tok[1:])
+	}
+	g.ops = append(g.ops, tok)
+	for _, t := range blk.txs {
+		g.delivered = append(g.delivered, t.id)
+	}
+	p := g.nodes[blk.parent]
+	n := &gNode{id: blk.id, parent: p.id, height: p.height + 1, blk: blk, bad: bad || p.bad}
+	n.utxo = applyBlockG(p.utxo, blk, n.height)
+	g.nodes[n.id] = n
+	old := g.nodes[g.tip]
+	if n.height <= old.height {
+		return
+	}
+	if n.bad {
+		g.rejs++
+		g.badBranches++
+		return // the reorganisation is refused, nothing moves
+	}
+	fork := g.forkOf(old, n)
+	nd, na := old.height-fork.height, n.height-fork.height
+	if nd > 0 {
+		g.reorgs++
+	}
+	if k > 0 && k <= nd+na {
+		if k <= nd {
+			g.tip = g.ancestorAt(old, old.height-k).id
+		} else {
+			g.tip = g.ancestorAt(n, fork.height+(k-nd)).id
+		}
+		g.c.cache = size
+		g.crashes++
+		g.restarts++
+		return
+	}
+	g.tip = n.id
+}
+
+func (g *chainGen) pickSize() uint64 {
+	switch x := g.r.Intn(5); {
+	case x < 2:
+		return 0
+	case x < 4:
+		return hugeCache
+	}
+	return uint64(g.r.Range(200, 40000))
+}
+
 func (g *chainGen) extend(p *gNode) bool {
 	blk, ok := g.makeBlock(p, 0)
 	if !ok {
 		return false
 	}
-	g.deliver(blk, true)
+	if g.crashy && g.r.Chance(1, 12) {
+		g.deliverX(blk, false, 1+g.r.Intn(2), g.pickSize())
+	} else {
+		g.deliver(blk, true)
+	}
 	return true
 }
 
@@ -509,6 +600,7 @@ func genChain(r *core.Rand, profile int, maxOps int, long bool) (string, string,
 		ids: map[chainhash.Hash]int{}, long: long, seen: map[string]bool{}, byIns: map[string]aTx{}}
 	g.nodes[0] = &gNode{utxo: map[aOp]gEntry{}}
 	g.modelAlive = c.cache == 0 || c.cache == hugeCache
+	g.crashy = profile != 0
 	cfg0 := c
 	n := 3 + r.Intn(maxOps)
 	for step := 0; step < n; step++ {
@@ -529,7 +621,7 @@ func genChain(r *core.Rand, profile int, maxOps int, long bool) (string, string,
 			if r.Chance(1, 3) && len(g.nodes) > 2 {
 				for _, id := range sortedIDs(g.nodes) {
 					nd := g.nodes[id]
-					if nd.id != g.tip && nd.height <= tip.height && r.Chance(1, 3) {
+					if nd.id != g.tip && !nd.bad && nd.height <= tip.height && r.Chance(1, 3) {
 						from = nd
 					}
 				}
@@ -540,13 +632,51 @@ func genChain(r *core.Rand, profile int, maxOps int, long bool) (string, string,
 					from = g.nodes[from.parent]
 				}
 			}
-			for from.height <= tip.height {
-				blk, ok := g.makeBlock(from, 0)
+			if from.bad {
+				break
+			}
+			// now and then one block of the overtaking branch (first, middle or last) is invalid in
+			// a way only the branch's own history shows; now and then the process dies inside the
+			// reorganisation
+			m := tip.height - from.height + 1
+			badPos, badKind := -1, 0
+			if profile != 0 && from.id != g.tip && r.Chance(1, 5) {
+				badPos = r.Intn(m)
+				badKind = int(r.Pick(2, 3, 4, 4, 5))
+			}
+			forkNode := g.forkOf(tip, from)
+			for i := 0; from.height <= tip.height; i++ {
+				kind := 0
+				if i == badPos && from.id != g.tip {
+					kind = badKind
+					g.branchSpent = g.branchSpent[:0]
+					for o, e := range forkNode.utxo {
+						if _, still := from.utxo[o]; !still && isOurs(e.script) && !(e.cb && e.h+g.c.maturity > from.height+1) {
+							g.branchSpent = append(g.branchSpent, o)
+						}
+					}
+					sortOps(g.branchSpent)
+				}
+				blk, ok := g.makeBlock(from, kind)
+				if !ok && kind != 0 {
+					kind = 0
+					blk, ok = g.makeBlock(from, 0)
+				}
 				if !ok {
 					break
 				}
-				g.deliver(blk, true)
+				k := 0
+				var size uint64
+				last := from.height == tip.height
+				if last && profile != 0 && !from.bad && kind == 0 && r.Chance(1, 3) {
+					k = 1 + r.Intn(tip.height-forkNode.height+m+1)
+					size = g.pickSize()
+				}
+				g.deliverX(blk, kind != 0, k, size)
 				from = g.nodes[blk.id]
+				if g.tip != tip.id && g.tip != from.id {
+					break // died inside the reorganisation: the tip is somewhere in between
+				}
 				if profile != 0 && r.Chance(1, 5) {
 					g.observe()
 				}
@@ -605,6 +735,12 @@ func genChain(r *core.Rand, profile int, maxOps int, long bool) (string, string,
 	}
 	if g.restarts > 0 {
 		class += "-crash"
+	}
+	if g.crashes > 0 {
+		class += "-midcrash"
+	}
+	if g.badBranches > 0 {
+		class += "-badbranch"
 	}
 	line := fmt.Sprintf("C03 chain %d:%d:%d %s", b2i(c.bip34), c.maturity, c.cache, strings.Join(g.ops, " "))
 	return line, class, g.nextB > 2
